@@ -398,3 +398,38 @@ def trace_to_origin(db, f, place, depth=0):
                     rest = tuple(_simplify(list(pc[2]) + ["&"] + proj[1:])) if False else tuple(e for e in (list(pc[2]) + proj[1:]) if e != "*")
                     return pf, (pc[0], pc[1], rest)
     return f, (cp[0], cp[1], tuple(e for e in cp[2] if e != "*"))
+
+
+def natural_loop_body(f, header):
+    """blocks of the natural loop of `header` (union over its back edges), header included"""
+    dom = f.dominators()
+    pred = f.pred()
+    back = [p for p in pred[header] if header in dom.get(p, ())]
+    body = {header}
+    st = list(back)
+    while st:
+        x = st.pop()
+        if x in body:
+            continue
+        body.add(x)
+        st.extend(pred[x])
+    return body, back
+
+
+def every_iteration_passes(f, header, through):
+    """True iff every path from the loop header around the loop back to the header passes a block in `through`"""
+    body, back = natural_loop_body(f, header)
+    succ = f.succ()
+    seen = set()
+    st = [s for s in succ[header] if s in body and s not in through]
+    while st:
+        x = st.pop()
+        if x in seen:
+            continue
+        seen.add(x)
+        if x in back:
+            return False
+        for s in succ[x]:
+            if s in body and s not in through and s != header and s not in seen:
+                st.append(s)
+    return True
